@@ -89,7 +89,10 @@ def run_case(case, fresh_clock=True):
     for i, opname in enumerate(opnames):
         if i == 1 and case.get("advance"):
             CLOCK.advance(case["advance"])  # responses now carry another engine time than discovery
-        op = OPS[opname]
+        op = OPS["set" if opname == "set-refused" else opname]
+        # "set-refused": the agent answers the (encrypted) request with an
+        # (encrypted) error response - decrypting it is not a failure
+        ag.response_hook = (lambda agent, req, resp: dict(resp, es=17, ei=1, varbinds=list(req["varbinds"]))) if opname == "set-refused" else None
         n0 = len(ag.log)
         if rec is not None:
             del rec.CALLS[:]
@@ -155,7 +158,10 @@ def run_case(case, fresh_clock=True):
                         bad("plug-in-encrypted-other-data-than-was-sent")
         # (e) responses
         want = expected_result(opname, db)
-        if exc is not None:
+        if opname == "set-refused":
+            if ops.exc_sig(exc) != "NotWritable":
+                bad("encrypted-error-response-not-raised-as-its-error", message=repr(exc)[:200])
+        elif exc is not None:
             bad("encrypted-response-not-accepted", message=str(exc)[:200])
         elif want is not None and result != want:
             bad("decrypted-value-differs-from-value-sent", got=result, expected=want)
@@ -196,6 +202,7 @@ def plan(tier):
                         # an explicit context engine id (a context behind a
                         # proxy): keys stay localised to the agent's engine
                         cases.append(dict(plugin=plugin, method=method, privpw=pp, engine=eng, ctx=ctx, size=20, ops=["get", "set", "getnext"], advance=3, ctxengine=1))
+                        cases.append(dict(plugin=plugin, method=method, privpw=pp, engine=eng, ctx=ctx, size=20, ops=["get", "set-refused", "get"], advance=0))
     return cases
 
 
